@@ -225,7 +225,21 @@ func (s *LogStore) triggerVerify(r VerificationReport) {
 
 // DeleteRange deletes a range of log entries. The range is inclusive.
 func (s *LogStore) DeleteRange(min uint64, max uint64) error {
-	return s.s.DeleteRange(min, max)
+	if err := s.s.DeleteRange(min, max); err != nil {
+		return err
+	}
+	// If the deleted range reaches into the entries we've been summing since the
+	// last checkpoint (i.e. a tail truncation before conflicting entries are
+	// re-appended) the running checksum no longer describes what is in the log.
+	// We can't un-hash the removed entries so forget the sum. The next append
+	// restarts it from its own index which won't match the leader's range start,
+	// so the written sum is ignored for the next checkpoint rather than being
+	// reported as in-flight corruption.
+	if startIdx := atomic.LoadUint64(&s.sumStartIdx); startIdx != 0 && min <= max && max >= startIdx {
+		atomic.StoreUint64(&s.checksum, 0)
+		atomic.StoreUint64(&s.sumStartIdx, 0)
+	}
+	return nil
 }
 
 // Close cleans up the background verification routine and calls Close on the
